@@ -1,32 +1,27 @@
 #!/bin/bash
 # tools/sweep_seeds.sh: for every seeded change, apply it to a scratch copy of /repo's tracked
-# files (outside /repo and /verif, removed afterwards) and run checks against that copy; record
-# which checks fire in seeded/RESULTS.md.  By default only the seed's own property is checked;
-# FULL=1 runs every registered check against every seed (the cross matrix).
+# files (outside /repo and /verif, removed afterwards) and run `rsa matrix` (every registered
+# check, one process per seed) against that copy; record which checks fire in seeded/RESULTS.md.
 cd /verif; . ./env.sh
-allprops=$(python3 -c "import json;print(' '.join(c['property_id'] for c in json.load(open('MANIFEST.json'))['checks']))")
-work=/tmp/sweep.$$; mkdir -p $work/ev; cp known_findings.json $work/ev/
-jobs=$work/jobs; : > $jobs
+work=/tmp/sweep.$$; mkdir -p $work
+ids=""
 for d in seeded/C*/; do
-  id=$(basename $d); prop=${id%-*}
+  id=$(basename $d)
   mkdir -p $work/$id
   git -C /repo ls-files -z | (cd /repo && xargs -0 cp --parents -t $work/$id)
   (cd $work/$id && git apply "/verif/$d/patch.diff") || { echo "$id APPLY-FAILED" >> $work/failed; continue; }
-  props=$prop; [ -n "$FULL" ] && props=$allprops
-  for p in $props; do echo "$id $p" >> $jobs; done
+  ids="$ids $id"
 done
-run_one() { id=$1; p=$2; work=$3; mkdir -p $work/ev/$id; cp $work/ev/known_findings.json $work/ev/$id/; /verif/bin/rsa check --property $p --repo $work/$id --verif $work/ev/$id > $work/ev/$id/$p.out 2>&1; echo $? > $work/ev/$id/$p.rc; }
-export -f run_one
-cat $jobs | xargs -P ${PAR:-10} -L 1 bash -c 'run_one $0 $1 '$work
+echo $ids | tr ' ' '\n' | GOMAXPROCS=4 xargs -P ${PAR:-8} -I{} sh -c "/verif/bin/rsa matrix --repo $work/{} > $work/{}.out 2>$work/{}.err"
 out=seeded/RESULTS.md
-echo "| seed | property | checks that fire (exit 1) | rules reported by the property's own check |" > $out
+echo "| seed | property | rules reported by the property's own check | other checks that report it (rules) |" > $out
 echo "|---|---|---|---|" >> $out
-for d in seeded/C*/; do
-  id=$(basename $d); prop=${id%-*}
-  fired=""
-  for rcf in $work/ev/$id/*.rc; do [ -f "$rcf" ] || continue; p=$(basename $rcf .rc); rc=$(cat $rcf); [ "$rc" = "1" ] && fired="$fired $p"; [ "$rc" != "0" ] && [ "$rc" != "1" ] && fired="$fired $p(rc=$rc)"; done
-  rules=$(grep -E "^  [A-Z][A-Z0-9-]+ / " $work/ev/$id/$prop.out 2>/dev/null | sed -E 's/^  ([A-Z0-9-]+) \/ .*/\1/' | sort -u | tr '\n' ' ')
-  echo "| $id | $prop |$fired | $rules |" >> $out
+for id in $ids; do
+  prop=${id%-*}
+  own=$(awk -v p=$prop '$1==p {print $3}' $work/$id.out)
+  others=$(awk -v p=$prop '$1!=p && $2>0 {printf "%s (%s) ", $1, $3}' $work/$id.out)
+  [ -s $work/$id.out ] || own="ANALYSIS FAILED: $(tail -1 $work/$id.err)"
+  echo "| $id | $prop | $own | $others |" >> $out
 done
 [ -f $work/failed ] && cat $work/failed
 rm -rf $work
